@@ -95,8 +95,13 @@ pub fn func(rng: &mut Rng, name: &str, receiver: Option<Option<bool>>, public_in
         Some(true) => args.push(Argument::MutSelf),
         None => {}
     }
+    // now and then the parameters carry names that generated wrappers use for their own
+    // locals and parameters (`f`, `_f`, `this`)
+    let odd_names = rng.chance(1, 5);
+    let mut pool: Vec<&str> = vec!["f", "_f", "this", "__f", "ptr", "r#type"];
     for k in 0..rng.below(max_args + 1) {
-        args.push(Argument::Named(Ident(format!("a{k}")), arg_type(rng)));
+        let name = if odd_names && !pool.is_empty() { pool.remove(rng.below(pool.len())).to_string() } else { format!("a{k}") };
+        args.push(Argument::Named(Ident(name), arg_type(rng)));
     }
     let mut f = Function::new((if public { Visibility::Public } else { Visibility::Private }, name), args);
     if rng.coin() {
@@ -145,6 +150,12 @@ pub fn c04_tables(seed: u64, first_id: usize, n: usize) -> Vec<Case> {
             fns.push(f);
         }
         let size = rng.chance(1, 3).then(|| slot + rng.below(4));
+        if i % 9 == 4 {
+            // hostile: a virtual function that also claims a fixed address; if that is accepted
+            // at all, the wrapper still has to go through the object's table
+            let k = rng.below(fns.len());
+            fns[k].attributes.0.push(Attribute::address(0x2800_0000 + i * 0x40));
+        }
         let mut base = TB::new("Base");
         base.vft = Some(fns.clone());
         base.vft_size = size;
@@ -231,6 +242,20 @@ pub fn c05_cases(seed: u64, first_id: usize, n: usize) -> Vec<Case> {
                 _ => addr.next() + rng.below(16),
             };
             t.impl_fns.push(with_address(f, a));
+        }
+        if i % 4 == 1 {
+            // parameters that look like the receiver: a pointer to the type itself, named like
+            // the wrapper's own first parameter
+            let mutable = rng.coin();
+            let own = if mutable { Type::ident("T").mut_pointer() } else { Type::ident("T").const_pointer() };
+            let mut g = Function::new(
+                (Visibility::Public, "relink"),
+                [if mutable { Argument::MutSelf } else { Argument::ConstSelf }, Argument::named("a", Type::ident("u32")), Argument::named("this", own.clone()), Argument::named("f", own)],
+            );
+            if rng.coin() {
+                g.return_type = Some(Type::ident("T").const_pointer());
+            }
+            t.impl_fns.push(with_address(g, addr.next()));
         }
         t.add_to(&mut m);
         // several impl blocks for one type are one set of functions
@@ -709,7 +734,8 @@ pub fn negatives(ctx: &mut Ctx, prop: &str) {
                     6 => {
                         // an impl block for something that is not a type of this module
                         f.attributes.0.push(Attribute::address(0x2000_0000));
-                        let target = *rng.pick(&["Nowhere", "E", "Imported"]);
+                        let target = *rng.pick(&["Nowhere", "E", "Imported", "Ext"]);
+                        m.extern_types.push((Ident("Ext".into()), Attributes(vec![Attribute::size(8), Attribute::align(8)])));
                         m.definitions.push(ItemDefinition::new((Visibility::Public, "E"), EnumDefinition::new(Type::ident("u32"), [EnumStatement::field("A")], [])));
                         m.impls.push(FunctionBlock::new(target, [f.clone()]));
                         t.add_to(&mut m);
